@@ -77,6 +77,30 @@ func Harness_C14_q_instance_ids() {
 		}
 	}
 	verif.Assert(a.idCount == next, "inv:counter-advanced")
+	// the accessory grows after ids were assigned once: a characteristic is added to an
+	// existing service, a new service is added, ids are assigned again (as adding the
+	// accessory to a container or transport does) - still non-zero and pairwise distinct
+	if verif.Choice("grows", 2) == 1 {
+		last := a.Services[len(a.Services)-1]
+		last.AddCharacteristic(characteristic.NewBrightness().Characteristic)
+		ns := service.New("49")
+		ns.AddCharacteristic(characteristic.NewOn().Characteristic)
+		a.AddService(ns)
+		a.UpdateIDs()
+		var again []uint64
+		for _, s := range a.Services {
+			again = append(again, s.ID)
+			for _, ch := range s.Characteristics {
+				again = append(again, ch.ID)
+			}
+		}
+		for i := range again {
+			verif.Assert(again[i] != 0, "instance-id-non-zero-after-growth")
+			for j := 0; j < i; j++ {
+				verif.Assert(again[i] != again[j], "instance-ids-unique-after-growth")
+			}
+		}
+	}
 	// rebuilding the same shape yields the same ids (from the initial counter 1)
 	b1, b2 := iiShape("a"), iiShape("a")
 	b1.UpdateIDs()
